@@ -69,6 +69,17 @@ def main():
                 else:
                     t[K(k)] = emb.val(1)
                 return ['ok']
+            if op == 'pop':
+                return ['v', emb.rv(t.pop(K(k)))]
+            if op == 'sdf':
+                return ['v', emb.rv(t.setdefault(K(k), emb.val(1)))]
+            if op == 'ins':
+                return ['v', t.insert(K(k), emb.val(1))]
+            if op == 'popmin':
+                x = t.popitem()
+                return ['v', x[0].v, emb.rv(x[1])]
+            if op == 'popmins':
+                return ['v', t.pop().v]
             if is_set:
                 t.remove(K(k))
             else:
@@ -77,7 +88,8 @@ def main():
         except KeyError:
             return ['KeyError']
         except Exception as e:
-            return ['exc', type(e).__name__]
+            import traceback
+            return ['exc', type(e).__name__, traceback.format_exc()[-1500:]]
 
     def run(path_acts, op, k, sweep_at=None):
         store, jar, t = build(path_acts)
@@ -118,7 +130,9 @@ def main():
         ent = expected[ei]
         tree = ent['tree']
         path_acts = [payloads[pi]['act'] for pi in g.path_to(tree)]
-        for op in ('get', 'set', 'del'):
+        # (composite calls, where the specification has them: pop, setdefault, insert, popitem / pop-smallest)
+        extra = [o for o in ((['popmins'] if is_set else ['pop', 'sdf', 'ins', 'popmin'])) if o in ent['calls']]
+        for op in ['get', 'set', 'del'] + extra:
             per_k = ent['calls'][op]
             for k in range(1, len(per_k) + 1):
                 evs = per_k[k - 1]
@@ -126,8 +140,11 @@ def main():
                 for e in evs:
                     pinned = sorted(e['pinned'])
                     want.append(['lt', e['lhs'], e['rhs'], pinned])
-                    if not e['lhs'] < e['rhs']:
+                    # (popitem / pop-smallest look the stored key object itself up: PyObject_RichCompareBool answers == for
+                    # identical objects without calling __eq__)
+                    if not e['lhs'] < e['rhs'] and not (op in ('popmin', 'popmins') and e['lhs'] == e['rhs']):
                         want.append(['eq', e['lhs'], e['rhs'], pinned])
+                counts['calls_' + op] = counts.get('calls_' + op, 0) + 1
                 res, log, left, pj = run(path_acts, op, k)
                 counts['calls'] += 1
                 counts['comparisons'] += len(log)
@@ -141,7 +158,11 @@ def main():
                     counts['sweeps'] += 1
                     if res2 != res or pj2 != pj:
                         mism.append(dict(where, kind='sweep-changes-outcome', sweep_at=j, model=[res, pj], real=[res2, pj2]))
-                    if [x[:3] for x in log2] != [x[:3] for x in log]:
+                    # (popitem / pop-smallest: after a sweep the stored keys are fresh copies, no longer identical to the key
+                    # minKey() handed out, so __eq__ is called where identity answered before - not a difference in behaviour)
+                    def norm(lg):
+                        return [x[:3] for x in lg if not (op in ('popmin', 'popmins') and x[0] == 'eq' and x[1] == x[2])]
+                    if norm(log2) != norm(log):
                         mism.append(dict(where, kind='sweep-changes-comparisons', sweep_at=j, model=[x[:3] for x in log], real=[x[:3] for x in log2]))
                     if left2:
                         mism.append(dict(where, kind='pinned-after-return', sweep_at=j, real=left2))
